@@ -403,17 +403,22 @@ class RmMemDisp2(Constructor):
     syntax = Syntax(
         ["[", regb, ",", " ", regi, ",", " ", disp, "]"], priority=2
     )
-    patterns = {"mod": 1, "rm": 4, "ss": 0}
+    patterns = {"rm": 4, "ss": 0}
 
     def set_user_patterns(self, tokens):
         # assert self.regb.regbits != 5
         assert self.regi.regbits != 4
+        if self.disp <= 127 and self.disp >= -128:
+            tokens.set_field("mod", 1)
+            tokens.set_field("disp8", self.disp)
+        else:
+            tokens.set_field("mod", 2)
+            tokens.set_field("disp32", self.disp)
         # SIB mode:
         tokens.set_field("b", self.regb.rexbit)
         tokens.set_field("x", self.regi.rexbit)
         tokens.set_field("index", self.regi.regbits)
         tokens.set_field("base", self.regb.regbits)
-        tokens.set_field("disp8", self.disp)
 
 
 class RmRip(Constructor):
